@@ -131,7 +131,7 @@ class Report:
 
     # ---- the deciding step ---------------------------------------------------------
     def prove(self, label, goal, constraints, timeout_ms=30000, tactic=None, inputs=None, replay=None,
-              regions=None, sample=None, linearize=False, quick_ms=4000, rounds=3):
+              regions=None, sample=None, linearize=False, quick_ms=4000, rounds=3, lemmas=None):
         """Ask the solver for a counterexample to `goal` under `constraints`.
 
         inputs(model) -> JSON-able concrete inputs; replay(inputs) -> (bool reproduced, detail)
@@ -141,6 +141,13 @@ class Report:
         from symx.core import refute
 
         extra = []
+        # lemma chaining (cut rule): each lemma is first proved from the same constraints and only then used as a hypothesis
+        constraints = list(constraints)
+        for lname, lem in (lemmas or []):
+            lv = refute(lem, constraints, min(timeout_ms, 20000), tactic)
+            self._item(f"{label}:lemma:{lname}", "lemma", lv)
+            if lv.status == "unsat":
+                constraints.append(lem)
         for _round in range(1 + len(self.known)):
             if linearize:
                 # ring identity under polynomial equality hypotheses: the degree-bounded linearisation decided in
